@@ -69,3 +69,175 @@ func (m *Mutex) Unlock() {
 	vsched.Point(vsched.Op{Kind: "Mutex.Unlock", Obj: m})
 	m.held = false
 }
+
+// TryLock mirrors sync.Mutex.TryLock.
+func (m *Mutex) TryLock() bool {
+	vsched.Point(vsched.Op{Kind: "Mutex.TryLock", Obj: m})
+	if m.held {
+		return false
+	}
+	m.held = true
+	return true
+}
+
+// Locker mirrors sync.Locker.
+type Locker interface {
+	Lock()
+	Unlock()
+}
+
+// RLocker mirrors (*sync.RWMutex).RLocker.
+func (m *RWMutex) RLocker() Locker { return (*rlocker)(m) }
+
+type rlocker RWMutex
+
+func (r *rlocker) Lock()   { (*RWMutex)(r).RLock() }
+func (r *rlocker) Unlock() { (*RWMutex)(r).RUnlock() }
+
+// Map mirrors sync.Map: every operation is one scheduling point and atomic in between (only one
+// thread runs at a time under the cooperative scheduler).
+type Map struct {
+	m     map[interface{}]interface{}
+	order []interface{}
+}
+
+func (m *Map) point(kind string) { vsched.Point(vsched.Op{Kind: "Map." + kind, Obj: m}) }
+
+// Load mirrors sync.Map.Load.
+func (m *Map) Load(key interface{}) (interface{}, bool) {
+	m.point("Load")
+	v, ok := m.m[key]
+	return v, ok
+}
+
+// Store mirrors sync.Map.Store.
+func (m *Map) Store(key, value interface{}) {
+	m.point("Store")
+	if m.m == nil {
+		m.m = map[interface{}]interface{}{}
+	}
+	if _, ok := m.m[key]; !ok {
+		m.order = append(m.order, key)
+	}
+	m.m[key] = value
+}
+
+// LoadOrStore mirrors sync.Map.LoadOrStore.
+func (m *Map) LoadOrStore(key, value interface{}) (interface{}, bool) {
+	m.point("LoadOrStore")
+	if v, ok := m.m[key]; ok {
+		return v, true
+	}
+	if m.m == nil {
+		m.m = map[interface{}]interface{}{}
+	}
+	m.order = append(m.order, key)
+	m.m[key] = value
+	return value, false
+}
+
+// LoadAndDelete mirrors sync.Map.LoadAndDelete.
+func (m *Map) LoadAndDelete(key interface{}) (interface{}, bool) {
+	m.point("LoadAndDelete")
+	v, ok := m.m[key]
+	if ok {
+		m.remove(key)
+	}
+	return v, ok
+}
+
+// Delete mirrors sync.Map.Delete.
+func (m *Map) Delete(key interface{}) {
+	m.point("Delete")
+	if _, ok := m.m[key]; ok {
+		m.remove(key)
+	}
+}
+
+func (m *Map) remove(key interface{}) {
+	delete(m.m, key)
+	for i, k := range m.order {
+		if k == key {
+			m.order = append(m.order[:i:i], m.order[i+1:]...)
+			break
+		}
+	}
+}
+
+// Range mirrors sync.Map.Range (insertion order: one fixed order is explored).
+func (m *Map) Range(f func(key, value interface{}) bool) {
+	m.point("Range")
+	keys := append([]interface{}{}, m.order...)
+	for _, k := range keys {
+		v, ok := m.m[k]
+		if !ok {
+			continue
+		}
+		if !f(k, v) {
+			return
+		}
+	}
+}
+
+// Once mirrors sync.Once.
+type Once struct {
+	done    bool
+	running bool
+}
+
+// Do mirrors sync.Once.Do: later callers wait until the first call has returned.
+func (o *Once) Do(f func()) {
+	vsched.Point(vsched.Op{Kind: "Once.Do", Obj: o, Enabled: func() bool { return !o.running }})
+	if o.done {
+		return
+	}
+	o.running = true
+	defer func() { o.running, o.done = false, true }()
+	f()
+}
+
+// WaitGroup mirrors sync.WaitGroup.
+type WaitGroup struct{ n int }
+
+// Add mirrors sync.WaitGroup.Add.
+func (w *WaitGroup) Add(d int) {
+	vsched.Point(vsched.Op{Kind: "WaitGroup.Add", Obj: w})
+	w.n += d
+	if w.n < 0 {
+		panic("sync: negative WaitGroup counter")
+	}
+}
+
+// Done mirrors sync.WaitGroup.Done.
+func (w *WaitGroup) Done() { w.Add(-1) }
+
+// Wait mirrors sync.WaitGroup.Wait.
+func (w *WaitGroup) Wait() {
+	vsched.Point(vsched.Op{Kind: "WaitGroup.Wait", Obj: w, Enabled: func() bool { return w.n == 0 }})
+}
+
+// Pool mirrors sync.Pool (no reuse across threads is modelled: Get prefers what was Put).
+type Pool struct {
+	New   func() interface{}
+	items []interface{}
+}
+
+// Get mirrors sync.Pool.Get.
+func (p *Pool) Get() interface{} {
+	vsched.Point(vsched.Op{Kind: "Pool.Get", Obj: p})
+	if n := len(p.items); n > 0 {
+		x := p.items[n-1]
+		p.items = p.items[:n-1]
+		return x
+	}
+	if p.New != nil {
+		return p.New()
+	}
+	return nil
+}
+
+// Put mirrors sync.Pool.Put.
+func (p *Pool) Put(x interface{}) {
+	vsched.Point(vsched.Op{Kind: "Pool.Put", Obj: p})
+	p.items = append(p.items, x)
+}
